@@ -24,6 +24,7 @@ import (
 	"sort"
 	"strconv"
 	"strings"
+	"sync"
 	"syscall"
 	"time"
 
@@ -51,7 +52,44 @@ func dsAddrName(rendered string) string {
 			return n
 		}
 	}
+	if n, ok := dsBoundNames[rendered]; ok {
+		return n
+	}
 	return rendered
+}
+
+// Anonymous clients: a name a<N> with N >= 100 stands for "a client with a network address of its own that nobody has
+// heard of before".  Which real address plays that part is decided when the name is first used: at once for a message
+// sent sequentially; for the clients of a concurrent batch of opens only after the batch, in the order in which the
+// server served them (= ascending identifiers) -- the concurrent run is compared with the sequential run of the batch in
+// the listed order, and clients that have never spoken are interchangeable (SA.Props.C13: C13_batch_opens_perm).
+// The maps belong to the world of the line that is running (one line runs at a time).
+var dsBoundAddrs = map[string]net.Addr{} // name -> real address
+var dsBoundNames = map[string]string{}   // rendered real address -> name
+var dsRealCount = 0
+
+func dsResetBindings() {
+	dsBoundAddrs, dsBoundNames, dsRealCount = map[string]net.Addr{}, map[string]string{}, 0
+}
+
+func dsAnonymous(name string) bool {
+	if len(name) < 4 || name[0] != 'a' {
+		return false
+	}
+	n, err := strconv.Atoi(name[1:])
+	return err == nil && n >= 100
+}
+
+// dsNewRealAddr is a real UDP address no other client of this world has
+func dsNewRealAddr() net.Addr {
+	k := dsRealCount
+	dsRealCount++
+	return &net.UDPAddr{IP: net.IPv4(10, byte(k>>16), byte(k>>8), byte(k)), Port: 20000 + k%40000}
+}
+
+func dsBind(name string, a net.Addr) {
+	dsBoundAddrs[name] = a
+	dsBoundNames[a.String()] = name
 }
 
 // dsRealAddr maps the address names of the op lines to the address types a real DNS server sees.  Distinct names
@@ -70,6 +108,14 @@ func dsRealAddr(name string) net.Addr {
 		return &net.UDPAddr{IP: net.ParseIP("fe80::1"), Port: 40000, Zone: "eth0"}
 	case "a6":
 		return &net.UDPAddr{IP: net.ParseIP("fe80::1"), Port: 40000, Zone: "eth1"}
+	}
+	if dsAnonymous(name) {
+		if a, ok := dsBoundAddrs[name]; ok {
+			return a
+		}
+		a := dsNewRealAddr()
+		dsBind(name, a)
+		return a
 	}
 	return dsAddr(name)
 }
@@ -158,6 +204,7 @@ func (w *dsWorld) liveIds() map[int]int {
 }
 
 func dsNewWorld(dom string) *dsWorld {
+	dsResetBindings()
 	w := &dsWorld{dom: dom, comm: &dsComm{}, ledger: map[net.Conn]map[uint16][]byte{}}
 	w.srv = sadns.NewServerDnsListener(dom, w.comm)
 	w.limit = w.srv.VerifTableSize()
@@ -319,6 +366,351 @@ func (w *dsWorld) invariant() string {
 	return ""
 }
 
+// ---------------------------------------------------------------- concurrent batches
+//
+// `[ op op … ]`: the ops between the brackets (messages `m:` and application-side `x:` Close() calls) are handed to the
+// real listener at the same moment, each on a goroutine of its own -- the way miekg/dns serves every datagram on its
+// own goroutine while the application closes connections on others.  The outcome must be LINEARIZABLE: equal to what
+// the ops give when they are served one after the other in SOME order.  The op lines keep to batches whose sequential
+// outcome is the same for every order up to the naming of anonymous clients (see the generator), so the canonical
+// result below can be compared with the model's run of the batch in the listed order:
+//   * answers in the listed order; the answers to the version requests of one class of senders (all anonymous clients
+//     = one class, every other address name a class of its own) are put into the order "successful opens by ascending
+//     identifier, then the rest" among the positions of that class;
+//   * the anonymous clients are named after the batch: the one that was given the lowest identifier gets the name
+//     listed first, and so on (clients that were refused take the remaining names);
+//   * new session objects are numbered by ascending identifier (discover()).
+// The monitor speaks about the implementation alone: identifiers answered pairwise distinct, none held by a session
+// that was live before the batch and not closed in it, no free identifier skipped, one live session object of its own
+// per answered identifier that came out of Accept() exactly once (right identifier, right owner, empty streams),
+// nothing else out of Accept(), sessions that no op of the batch names untouched, owners' commands not refused.
+
+type dsBatchItem struct {
+	kind      byte // 'm' or 'x'
+	from      string
+	anon      bool // `from` is an anonymous client whose name is bound after the batch
+	isVersion bool
+	real      net.Addr
+	q         *dns.Msg
+	codec     byte
+	named     int
+	hasNamed  bool
+	needsUser bool
+	namedSid  int
+	sid       int // x
+	resp      *dns.Msg
+	err       error
+	panicked  string
+	answer    string
+}
+
+func (w *dsWorld) isVersionRequest(q *dns.Msg) (v bool) {
+	defer func() { _ = recover() }()
+	return commands.CmdVersion.IsOfType(commands.ComposeRequest(q, w.dom))
+}
+
+func (w *dsWorld) runBatch(ops []string) (answers []string, mons []string, ok bool) {
+	note := func(m string) { mons = append(mons, m) }
+	items := make([]*dsBatchItem, len(ops))
+	uses := map[string]int{}
+	for k, op := range ops {
+		f := strings.Split(op, ":")
+		switch {
+		case f[0] == "m" && len(f) == 5 && len(f[4]) == 1:
+			qt, _ := strconv.Atoi(f[2])
+			nameb, err := unhex(f[3])
+			if err != nil {
+				return nil, nil, false
+			}
+			q := &dns.Msg{}
+			q.Id = 4242
+			q.RecursionDesired = true
+			q.Question = []dns.Question{{Name: string(nameb), Qtype: uint16(qt), Qclass: uint16(dnsmessage.ClassINET)}}
+			items[k] = &dsBatchItem{kind: 'm', from: f[1], q: q, isVersion: w.isVersionRequest(q)}
+			uses[f[1]]++
+		case f[0] == "x" && len(f) == 2:
+			sid, _ := strconv.Atoi(f[1])
+			items[k] = &dsBatchItem{kind: 'x', sid: sid}
+		default:
+			return nil, nil, false
+		}
+	}
+	// the state before the batch
+	before := w.views()
+	ownerBefore := map[int]string{}
+	liveBefore := map[int]bool{}
+	for sid, o := range w.objs {
+		ownerBefore[sid] = dsAddrName(sadns.VerifDescribeConn(o).Owner)
+		liveBefore[sid] = strings.HasPrefix(before[sid], "L")
+	}
+	idsBefore := w.liveIds()
+	acceptedBefore := len(w.accepted)
+	mayChange := map[int]bool{} // sids an op of the batch names
+	closedIds := map[int]bool{}  // identifiers whose live session an op of the batch may close
+	for _, it := range items {
+		if it.kind == 'x' {
+			if it.sid < len(w.objs) {
+				mayChange[it.sid] = true
+				if liveBefore[it.sid] {
+					closedIds[int(sadns.VerifDescribeConn(w.objs[it.sid]).UserId)] = true
+				}
+			}
+			continue
+		}
+		// an anonymous client that sends exactly one message in this batch, a version request, and has not spoken before
+		// is named afterwards; every other address is fixed now
+		if _, bound := dsBoundAddrs[it.from]; dsAnonymous(it.from) && !bound && it.isVersion && uses[it.from] == 1 {
+			it.anon = true
+			it.real = dsNewRealAddr()
+		} else {
+			it.real = dsRealAddr(it.from)
+		}
+		it.codec = w.answerCodec(it.q)
+		it.named, it.hasNamed, it.needsUser = w.namedId(it.q)
+		it.namedSid = -1
+		if sid, live := idsBefore[it.named]; live && it.hasNamed && !it.anon && ownerBefore[sid] == it.from {
+			it.namedSid = sid
+			mayChange[sid] = true
+			if !it.isVersion {
+				closedIds[it.named] = true // it may be a close request; only widens what the opens may be answered
+			}
+		}
+	}
+	// all at once
+	start := make(chan struct{})
+	var ready, done sync.WaitGroup
+	for _, it := range items {
+		ready.Add(1)
+		done.Add(1)
+		go func(it *dsBatchItem) {
+			defer done.Done()
+			defer func() {
+				if e := recover(); e != nil {
+					it.panicked = fmt.Sprint(e)
+				}
+			}()
+			ready.Done()
+			<-start
+			if it.kind == 'x' {
+				if it.sid < len(w.objs) {
+					_ = w.objs[it.sid].Close()
+				}
+				return
+			}
+			it.resp, it.err = w.comm.handler(it.q, it.real)
+		}(it)
+	}
+	ready.Wait()
+	close(start)
+	done.Wait()
+
+	fresh := w.drainAccept()
+	type opened struct {
+		it *dsBatchItem
+		id int
+	}
+	var opens []opened
+	for _, it := range items {
+		if it.kind != 'm' {
+			continue
+		}
+		if it.panicked != "" {
+			it.answer = "PANIC"
+			note("PANIC in the server message handler during a concurrent batch (miekg/dns does not recover: process exit): " + it.panicked)
+			continue
+		}
+		it.answer = dsClassify(w.dom, it.resp, it.err, it.codec)
+		if strings.HasPrefix(it.answer, "v:OK:") {
+			id, _ := strconv.Atoi(it.answer[5:])
+			opens = append(opens, opened{it, id})
+		}
+	}
+	sort.SliceStable(opens, func(i, j int) bool { return opens[i].id < opens[j].id })
+	realName := func(it *dsBatchItem) string {
+		if it.anon {
+			return it.real.String()
+		}
+		return it.from
+	}
+	// (1) identifiers pairwise distinct
+	for k := 1; k < len(opens); k++ {
+		if opens[k].id == opens[k-1].id {
+			a, b := opens[k-1].it, opens[k].it
+			note(fmt.Sprintf("%d handshakes served at the same moment: the version requests of %s and of %s were both answered with identifier %d -- "+
+				"two concurrent sessions share one identifier (the table has one slot for it: one of the two clients has no session)",
+				len(opens), realName(a), realName(b), opens[k].id))
+			break
+		}
+	}
+	// (2) an identifier answered was free, or was freed by a close of this batch; no free identifier was skipped
+	if len(opens) > 0 {
+		got := map[int]bool{}
+		for _, o := range opens {
+			got[o.id] = true
+			if held, live := idsBefore[o.id]; live && !closedIds[o.id] {
+				note(fmt.Sprintf("concurrent version request from %s was answered with identifier %d, which the live session S%d of %s holds (it was not closed in this batch)",
+					realName(o.it), o.id, held, ownerBefore[held]))
+				break
+			}
+		}
+		for id := 0; id < opens[len(opens)-1].id; id++ {
+			if _, live := idsBefore[id]; !live && !got[id] {
+				note(fmt.Sprintf("concurrent opens were answered identifiers up to %d although identifier %d was free and was given to nobody: not the lowest free slots", opens[len(opens)-1].id, id))
+				break
+			}
+		}
+	}
+	// (3) every answered identifier has a live session object of its own, which came out of Accept() exactly once
+	if len(fresh) != len(opens) {
+		note(fmt.Sprintf("%d version requests of a concurrent batch were answered with success, but %d new server-side connection(s) came out of Accept()", len(opens), len(fresh)))
+	}
+	usedFresh := map[net.Conn]string{}
+	for _, o := range opens {
+		l := w.srv.VerifSlot(o.id, false)
+		if l == nil {
+			note(fmt.Sprintf("concurrent version request from %s was answered with identifier %d, but no session is live under that identifier after the batch", realName(o.it), o.id))
+			continue
+		}
+		if l.Owner != o.it.real.String() {
+			note(fmt.Sprintf("concurrent version request from %s was answered with identifier %d, but the live session of that identifier belongs to %s: the client's session was displaced, its messages will be refused (BADIP)",
+				realName(o.it), o.id, dsAddrName(l.Owner)))
+			continue
+		}
+		if who, dup := usedFresh[l.Obj]; dup {
+			note(fmt.Sprintf("the opens of %s and %s share one server-side session object", who, realName(o.it)))
+			continue
+		}
+		usedFresh[l.Obj] = realName(o.it)
+		n := 0
+		for _, c := range fresh {
+			if c == l.Obj {
+				n++
+			}
+		}
+		for _, c := range w.accepted[:acceptedBefore] {
+			if c == l.Obj {
+				n += 2
+			}
+		}
+		inNext, inBuf, _, _ := l.In.VerifInState()
+		outNext, outSeqs, _, _, _ := l.Out.VerifOutState()
+		switch {
+		case n != 1:
+			note(fmt.Sprintf("the session opened for %s (identifier %d) did not come out of Accept() exactly once", realName(o.it), o.id))
+		case int(l.UserId) != o.id:
+			note(fmt.Sprintf("live slot %d holds a session with identifier %d", o.id, l.UserId))
+		case inNext != 0 || len(inBuf) != 0 || outNext != 0 || len(outSeqs) != 0:
+			note(fmt.Sprintf("the session opened with identifier %d does not start with empty streams", o.id))
+		}
+	}
+	for _, c := range fresh {
+		if _, mine := usedFresh[c]; !mine {
+			d := sadns.VerifDescribeConn(c)
+			note(fmt.Sprintf("Accept() handed out a connection (identifier %d, peer %s) that is not the live session of any client answered in this batch: "+
+				"the application holds a session no client can reach", d.UserId, dsAddrName(d.Owner)))
+			break
+		}
+	}
+	// name the anonymous clients: in the order in which they were served, then the refused ones
+	{
+		var names []string
+		var served, refused []*dsBatchItem
+		for _, it := range items {
+			if it.kind == 'm' && it.anon {
+				names = append(names, it.from)
+			}
+		}
+		for _, o := range opens {
+			if o.it.anon {
+				served = append(served, o.it)
+			}
+		}
+		for _, it := range items {
+			if it.kind == 'm' && it.anon && !strings.HasPrefix(it.answer, "v:OK:") {
+				refused = append(refused, it)
+			}
+		}
+		for k, it := range append(served, refused...) {
+			dsBind(names[k], it.real)
+		}
+	}
+	// canonical answers: per class of senders, successful opens by ascending identifier, then the rest
+	answers = make([]string, len(items))
+	classPos := map[string][]int{}
+	classAns := map[string][]string{}
+	for k, it := range items {
+		if it.kind != 'm' {
+			continue
+		}
+		answers[k] = it.answer
+		if it.isVersion {
+			c := it.from
+			if it.anon {
+				c = "anonymous"
+			}
+			classPos[c] = append(classPos[c], k)
+			classAns[c] = append(classAns[c], it.answer)
+		}
+	}
+	for c, pos := range classPos {
+		as := classAns[c]
+		sort.SliceStable(as, func(i, j int) bool {
+			oi, oj := strings.HasPrefix(as[i], "v:OK:"), strings.HasPrefix(as[j], "v:OK:")
+			if oi != oj {
+				return oi
+			}
+			if oi {
+				a, _ := strconv.Atoi(as[i][5:])
+				b, _ := strconv.Atoi(as[j][5:])
+				return a < b
+			}
+			return as[i] < as[j]
+		})
+		for k, p := range pos {
+			answers[p] = as[k]
+		}
+	}
+	// (4) sessions that no op of the batch names are untouched; (5) an owner's command on its live session is not refused
+	after := w.views()
+	for sid, b := range before {
+		if !mayChange[sid] && after[sid] != b {
+			note(fmt.Sprintf("a concurrent batch that does not name session S%d (%s) changed it: [%s] -> [%s]", sid, ownerBefore[sid], b, after[sid]))
+			break
+		}
+	}
+	closesSid := map[int]int{}
+	for _, it := range items {
+		if it.kind == 'x' {
+			closesSid[it.sid]++
+		} else if it.namedSid >= 0 {
+			closesSid[it.namedSid]++
+		}
+	}
+	for _, it := range items {
+		if it.kind == 'm' && it.namedSid >= 0 && it.needsUser && closesSid[it.namedSid] == 1 {
+			if p := strings.Split(it.answer, ":"); len(p) >= 2 && (p[1] == "BADCONN" || p[1] == "BADUSER" || p[1] == "BADIP") {
+				note(fmt.Sprintf("message from %s carrying identifier %d, held by the live session S%d of %s, was refused with %s while other clients' handshakes were served: a live session is unusable for its own peer",
+					it.from, it.named, it.namedSid, it.from, p[1]))
+			}
+		}
+		// bytes handed out in an answer to identifier i are bytes the application wrote to the session holding i
+		if p := strings.Split(it.answer, ":"); it.kind == 'm' && len(p) == 5 && p[0] == "c" && p[1] == "OK" && it.hasNamed {
+			seq, _ := strconv.Atoi(p[3])
+			sid, live := idsBefore[it.named]
+			var want []byte
+			var have bool
+			if live && sid >= 0 && sid < len(w.objs) {
+				want, have = w.ledger[w.objs[sid]][uint16(seq)]
+			}
+			if !have || hexs(want) != p[4] {
+				note(fmt.Sprintf("answer to %s for identifier %d carried chunk %d = %s, which the application did not write to the session holding that identifier", it.from, it.named, seq, p[4]))
+			}
+		}
+	}
+	w.opens += len(opens)
+	return answers, mons, true
+}
+
 var dsErrNames = func() map[string]bool {
 	m := map[string]bool{}
 	for _, e := range commands.BadErrors {
@@ -478,7 +870,56 @@ func dsRun(line string, rec *dsRecord) (result, monitor string, nMsgs int, class
 			monitor = m
 		}
 	}
-	for opNo, op := range ops {
+	for opNo := 0; opNo < len(ops); opNo++ {
+		op := ops[opNo]
+		if op == "[" {
+			// a concurrent batch: the ops up to the matching "]" are delivered at the same moment, each on a goroutine of its own
+			end := opNo + 1
+			for end < len(ops) && ops[end] != "]" {
+				end++
+			}
+			if end == len(ops) {
+				return "bad-op", "", 0, nil
+			}
+			bAns, bMon, ok := w.runBatch(ops[opNo+1 : end])
+			if !ok {
+				return "bad-op", "", 0, nil
+			}
+			for _, m := range bMon {
+				note(m)
+			}
+			for k, a := range bAns {
+				if a == "" {
+					continue // not a message
+				}
+				nMsgs++
+				answers = append(answers, a)
+				classes = append(classes, a)
+				if a == "PANIC" {
+					return strings.Join(answers, ";") + "|", monitor, nMsgs, append(classes, "PANIC")
+				}
+				if rec != nil {
+					// the messages of a batch are never left out by the non-interference monitor
+					for len(rec.answers) < nMsgs-1 {
+						rec.opIdx, rec.from, rec.answers = append(rec.opIdx, -1), append(rec.from, ""), append(rec.answers, "")
+						rec.inert, rec.opened = append(rec.inert, true), append(rec.opened, false)
+					}
+					rec.opIdx = append(rec.opIdx, opNo+1+k)
+					rec.from = append(rec.from, strings.SplitN(ops[opNo+1+k], ":", 3)[1])
+					rec.answers = append(rec.answers, a)
+					rec.inert = append(rec.inert, false)
+					rec.opened = append(rec.opened, true)
+				}
+			}
+			if inv := w.invariant(); inv != "" {
+				note(inv)
+			}
+			if dsTrace {
+				fmt.Fprintf(os.Stderr, "TRACE batch of %d => %s\n      %s\n      mon=%s\n", end-opNo-1, strings.Join(bAns, ";"), w.snapshot(), monitor)
+			}
+			opNo = end
+			continue
+		}
 		f := strings.Split(op, ":")
 		switch f[0] {
 		case "m":
@@ -1002,6 +1443,9 @@ type dsBuilder struct {
 	sess   []*dsShadowSess
 	slots  map[int]int    // uid -> sid of live session
 	old    map[int]string // uid -> owner of the session the retired table remembers under that identifier
+	// concurrent lines: only the Base32 decoding of a body is recorded (their sessions keep the default upstream codec),
+	// and only record types that carry every answer are asked for (the harness must learn the identifiers answered)
+	plain bool
 }
 
 func dsNewBuilder(r *Rand, dom string) *dsBuilder {
@@ -1067,7 +1511,7 @@ func (b *dsBuilder) oracleFor(name []byte) {
 	}
 	if len(req) >= 6 {
 		b.addOracle('T', req[6:])
-		if req[0] == 'c' || req[0] == 'C' {
+		if (req[0] == 'c' || req[0] == 'C') && !b.plain {
 			for i := 0; i < len(dsEncCodes); i++ {
 				b.addOracle(dsEncCodes[i], req[6:])
 			}
@@ -1114,6 +1558,9 @@ var dsQtypesBig = []int{int(util.QueryTypeNull), int(util.QueryTypePrivate), 16}
 
 func (b *dsBuilder) qtype(payload int, down byte) int {
 	exotic := down == 'W' || down == 'X' || down == 'Y'
+	if b.plain {
+		return dsQtypesBig[b.r.Intn(len(dsQtypesBig))]
+	}
 	if payload > 600 || (exotic && payload > 20) {
 		return dsQtypesBig[b.r.Intn(len(dsQtypesBig))]
 	}
@@ -1382,6 +1829,132 @@ func dsReissue(r *Rand, dom, keeper, oldOwner, newOwner string, how int) string 
 	return b.line()
 }
 
+// dsConcurrent: one line of concurrent batches (see runBatch).  Three established sessions (identifier 0 of a3, 1 of a1,
+// 2 of a2) carry traffic throughout.  Every round: a batch of k handshakes served at the same moment -- together with
+// one message on each established session (payload, poll, a spoofed packet) and, in variant 2, with closes of sessions
+// whose identifiers lie above every slot the opens can take (so that the outcome does not depend on the order) --,
+// then, one after the other: a Write and a packet with payload on every new session (each its own bytes), and the
+// sessions are closed again (by their clients one after the other, or all at once; by the application), so that the
+// next round re-issues the same identifiers.
+//   variant 0: every handshake from an anonymous client with an address of its own
+//   variant 1: all handshakes from ONE address (a1 / a2: clients behind one forwarder)
+//   variant 2: anonymous handshakes at the same moment as client-side and application-side closes
+func dsConcurrent(r *Rand, dom string, variant, rounds, k int) string {
+	b := dsNewBuilder(r, dom)
+	b.plain = true
+	b.open("a3", sadns.ProtocolVersion)
+	b.open("a1", sadns.ProtocolVersion)
+	b.open("a2", sadns.ProtocolVersion)
+	up := []uint16{0, 0, 0}    // next upstream sequence number of the established sessions
+	estOwner := []string{"a3", "a1", "a2"}
+	anon := 100
+	batch := func(f func()) {
+		b.ops = append(b.ops, "[")
+		f()
+		b.ops = append(b.ops, "]")
+	}
+	established := func(round int) {
+		// one message per established session: payload from its owner / a poll / a packet from a foreign address
+		for e := 0; e < 3; e++ {
+			switch (round + e) % 3 {
+			case 0:
+				b.packet(estOwner[e], e, 65535, &util.Packet{SeqNo: up[e], Data: []byte(fmt.Sprintf("est%d-%d", e, round))}, 40)
+				up[e]++
+			case 1:
+				b.packet(estOwner[e], e, 65535, nil, 40)
+			default:
+				b.packet(estOwner[(e+1)%3], e, 65535, &util.Packet{SeqNo: up[e], Data: []byte("spoofed")}, 40)
+			}
+		}
+	}
+	for round := 0; round < rounds; round++ {
+		first := len(b.sess)
+		var doomed []int // variant 2: sids of the sessions closed during the batch
+		if variant == 2 {
+			// k + h sessions opened one after the other by a1, the lower k closed again: h live sessions above k free slots
+			h := 3 + r.Intn(6)
+			for j := 0; j < k+h; j++ {
+				b.open("a1", sadns.ProtocolVersion)
+			}
+			for j := 0; j < k; j++ {
+				b.options("a1", 3+j, &commands.SetOptionsRequest{Closed: bp(true)})
+			}
+			for j := k; j < k+h; j++ {
+				doomed = append(doomed, first+j)
+			}
+			first = len(b.sess)
+		}
+		who := make([]string, k)
+		for j := range who {
+			switch variant {
+			case 1:
+				who[j] = []string{"a1", "a2"}[round%2]
+			default:
+				who[j] = fmt.Sprintf("a%d", anon)
+				anon++
+			}
+		}
+		batch(func() {
+			for j := 0; j < k; j++ {
+				b.open(who[j], sadns.ProtocolVersion)
+				if j == k/2 {
+					established(round)
+				}
+				if len(doomed) > 0 && j%3 == 1 {
+					sid := doomed[0]
+					doomed = doomed[1:]
+					if sid%2 == 0 {
+						b.closeObj(sid)
+					} else {
+						b.options("a1", b.sess[sid].uid, &commands.SetOptionsRequest{Closed: bp(true)})
+					}
+				}
+			}
+			for _, sid := range doomed {
+				b.closeObj(sid)
+			}
+		})
+		// every new session moves its own bytes in both directions
+		for j := 0; j < k; j++ {
+			sid := first + j
+			uid := b.sess[sid].uid
+			b.write(sid, []byte(fmt.Sprintf("down-%d", j)))
+			b.packet(who[j], uid, 65535, &util.Packet{SeqNo: 0, Data: []byte(fmt.Sprintf("up-%d", j))}, 40)
+		}
+		if variant == 2 {
+			b.packet("a1", b.sess[first-1].uid, 65535, nil, 40) // a session closed during the batch: BADCONN
+		}
+		// ... and ends
+		switch round % 3 {
+		case 0: // the clients close, one after the other
+			for j := 0; j < k; j++ {
+				b.options(who[j], b.sess[first+j].uid, &commands.SetOptionsRequest{Closed: bp(true)})
+			}
+		case 1: // the clients close at the same moment, every fifth session is closed by the application instead
+			batch(func() {
+				for j := 0; j < k; j++ {
+					if j%5 == 0 {
+						b.closeObj(first + j)
+					} else {
+						b.options(who[j], b.sess[first+j].uid, &commands.SetOptionsRequest{Closed: bp(true)})
+					}
+				}
+				established(round + 1)
+			})
+		default: // the application closes, all at once
+			batch(func() {
+				for j := 0; j < k; j++ {
+					b.closeObj(first + j)
+				}
+			})
+		}
+	}
+	for e := 0; e < 3; e++ {
+		b.packet(estOwner[e], e, 65535, nil, 40)
+	}
+	return b.line()
+}
+
 func (dsComp) Gen(r *Rand, tier string, emit func(string)) {
 	doms := []string{"example.com", "t.co", "tunnel.some-longer-zone.example.org"}
 	// enumerated scenarios -------------------------------------------------------------
@@ -1475,6 +2048,19 @@ func (dsComp) Gen(r *Rand, tier string, emit func(string)) {
 			}
 		}
 	}
+	// concurrent batches (the handshakes, transfers and closes of k sessions served at the same moment)
+	{
+		lines, rounds := 2, 4
+		if tier == "thorough" {
+			lines, rounds = 6, 8
+		}
+		for i := 0; i < lines; i++ {
+			for variant := 0; variant < 3; variant++ {
+				k := []int{48, 32, 24, 40}[(i+variant)%4]
+				emit(dsConcurrent(r, doms[(i+variant)%2], variant, rounds, k))
+			}
+		}
+	}
 	// server full: 1297 version requests
 	{
 		b := dsNewBuilder(r, "t.co")
@@ -1492,5 +2078,23 @@ func (dsComp) Gen(r *Rand, tier string, emit func(string)) {
 	}
 	for i := 0; i < n; i++ {
 		emit(dsHistory(r, doms[r.Intn(len(doms))], 4+r.Intn(depth)))
+	}
+}
+
+// VERIF_DNS_EMIT=<variant>,<rounds>,<k>[,<dom>]: print one concurrent line (used to write corpus lines)
+func init() {
+	if v := os.Getenv("VERIF_DNS_EMIT"); v != "" {
+		f := strings.Split(v, ",")
+		if len(f) >= 3 {
+			variant, _ := strconv.Atoi(f[0])
+			rounds, _ := strconv.Atoi(f[1])
+			k, _ := strconv.Atoi(f[2])
+			dom := "t.co"
+			if len(f) > 3 {
+				dom = f[3]
+			}
+			fmt.Println("dnssess " + dsConcurrent(NewRand(7), dom, variant, rounds, k))
+			os.Exit(0)
+		}
 	}
 }
